@@ -24,10 +24,19 @@ def mixed_schedule(rng):
     t = 0
     hn = 0
     q = 0
+    lastq = {}  # remote -> latest request submitted to it
+    # role reversal with colliding tokens: the peer's token space is its own, so a request of the peer may
+    # carry the very token of a request this endpoint has outstanding (or holds back) towards that peer
+    collide = rng.random() < 0.35
     for i in range(rng.randint(2, 7)):
         r = rng.randint(1, nrem)
         t += rng.choice([0, 1, 10, 200, 900])
-        if rng.random() < 0.65:
+        if collide and r in lastq and rng.random() < 0.6:
+            hn += 1
+            handlers[str(hn)] = {"delay": rng.choice([0, 0, EAD + 1, 300]), "outcome": "ok", "len": 8}
+            steps.append({"at": t, "do": "rx", "r": r, "ty": rng.choice(["CON", "NON"]), "code": 1,
+                          "mid": 20000 + i, "tok": {"of": lastq[r]}, "path": ["h", str(hn)]})
+        elif rng.random() < (0.4 if collide else 0.65):
             hn += 1
             con = rng.random() < 0.75
             # slow handlers: the response is a separate message subject to the backlog
@@ -39,6 +48,7 @@ def mixed_schedule(rng):
             q += 1
             con = rng.random() < 0.7
             steps.append({"at": t, "do": "submit", "q": q, "r": r, "con": con, "f": rng.choice([0.0, 0.5, 1.0])})
+            lastq[r] = q
             d = rng.choice([1, 40, 700, 1900])
             if con:
                 triggers.append({"on": {"q": q, "copy": 1}, "delay": d, "rx": {"r": r, "ty": "ACK", "code": 0, "mid": {"of": q}}})
